@@ -15,6 +15,20 @@ check("C01", "exploration",
       "Trusts the independent grammar model cpverif/models/rangemodel.py (self-tested) and CPython 3.12.1; inputs outside the model's grammar are counted as unjudged.",
       "runtime monitor on Range.__init__/validate + executable reference model (M-range)", "DESIGN.md 5/C01")
 
+check("C02", "exploration",
+      "Every <Type>FieldFormat.validated() call made by a generated workload (direct calls and end-to-end through Cid.read + "
+      "cutplace.rows) is judged by a boundary monitor against an independent per-type model (integer/decimal literal, choice "
+      "tokenizer, date layout parser, glob and regex-subset matchers); thorough sweeps all integers of up to 6 characters for "
+      "every length declaration 0..5 exhaustively.",
+      "Trusts cpverif/models/fieldmodel.py (self-tested), Python's int/Decimal/datetime; non-canonical spellings are unjudged.",
+      "runtime monitor on FieldFormat.validated + executable reference model (M-field)", "DESIGN.md 5/C02")
+check("C03", "exploration",
+      "The full product types x empty flag x length declarations x allowed-character ranges x formats x guard cells is "
+      "enumerated in both tiers; every validated() call is judged by the guard part of the field model, and the same cells are "
+      "read through Reader in yield mode to check that rejections name the field.",
+      "Trusts the guard model in cpverif/models/fieldmodel.py; blank-only fixed cells with blank not allowed are unjudged.",
+      "runtime monitor on FieldFormat.validated + guard model, exhaustive enumeration of the stated product", "DESIGN.md 5/C03")
+
 NOT_YET = "check not built yet in this session; see DESIGN.md section 5 for the planned monitor"
 
 def main():
